@@ -364,8 +364,34 @@ pub(crate) fn roundtrip(c: &mut Ctx, cur: &str) {
             let b2 = d.tagged_cbor().to_cbor_data();
             c.check("roundtrip-identical", e.is_identical_to(&d) && shape(&e) == shape(&d), "roundtrip-identical", || format!("{} -> {}", shape(&e), shape(&d)));
             c.check("roundtrip-bytes", b1 == b2, "roundtrip-bytes", || format!("{} vs {}", hex::encode(&b1), hex::encode(&b2)));
-            // UR round trip
+            // UR round trip: through the model too (the model has the real bytewords table and CRC-32)
             let ur = e.ur_string();
+            if !has_opaque(&e) { c.obs(&format!("ur {}", cur)); }
+            let u = c.assign(&format!("from_ur {}", ur));
+            c.obs(&format!("shape {}", u));
+            let uu = c.assign(&format!("from_ur {}", ur.to_uppercase()));
+            c.obs(&format!("shape {}", uu));
+            c.check("ur-roundtrip", c.env(&uu).map(|x| x.is_identical_to(&e)).unwrap_or(false), "ur-roundtrip", || format!("upper-case form of {} does not read back", ur));
+            if c.rng.chance(1, 2) {
+                // damaged strings: one letter changed, one letter dropped, another type, a second '/'
+                let body_at = "ur:envelope/".len();
+                let mut chars: Vec<char> = ur.chars().collect();
+                let k = body_at + c.rng.below(chars.len() - body_at);
+                let old = chars[k];
+                let mut nc = (b'a' + c.rng.below(26) as u8) as char; if nc == old { nc = if old == 'z' { 'a' } else { ((old as u8) + 1) as char }; }
+                chars[k] = nc;
+                let changed: String = chars.iter().collect();
+                let mut dropped = ur.clone(); dropped.remove(k);
+                let retyped = ur.replacen("ur:envelope/", "ur:bytes/", 1);
+                let two = ur.replacen("ur:envelope/", "ur:envelope/1-2/", 1);
+                let noscheme = ur.replacen("ur:", "", 1);
+                for (name, text) in [("letter-changed", changed), ("letter-dropped", dropped), ("other-type", retyped), ("multipart", two), ("no-scheme", noscheme)] {
+                    let d = c.assign(&format!("from_ur {}", text));
+                    let ok = c.is_ok(&d);
+                    c.check("damaged-ur-rejected", !ok, "damaged-ur-accepted", || format!("{}: {} accepted", name, text));
+                    c.count(&format!("ur-damage:{}", name));
+                }
+            }
             match Envelope::from_ur_string(&ur) {
                 Ok(u) => c.check("ur-roundtrip", u.is_identical_to(&e) && u.tagged_cbor().to_cbor_data() == b1, "ur-roundtrip", || ur.clone()),
                 Err(x) => c.check("ur-roundtrip", false, "ur-roundtrip", || format!("{}: {}", ur, x)),
